@@ -15,12 +15,11 @@ mod pcase;
 
 use bspatch as bp;
 use chain::{ChainCase, Op};
-use pcase::{Alt, Kind, PatchCase};
+use pcase::{Alt, PatchCase};
 use proptest::prelude::*;
 use serde_json::{json, Value};
 use vcheck::engine::supervise::{self, Outcome, Spec, TrackingAlloc};
 use vcheck::engine::{self, pt, CaseResult, Check, Fail};
-use vcheck::gens::mpq::ArchiveSpec;
 use wow_mpq::patch::{apply_patch, PatchFile};
 
 #[global_allocator]
@@ -102,7 +101,7 @@ fn chain_strategy() -> impl Strategy<Value = ChainCase> {
 fn exhaustive_histories(check: &Check) {
     let maxlen = check.tier.pick(3usize, 4);
     let configs: Vec<(bool, [i32; 3], usize)> = match check.tier {
-        engine::Tier::Quick => vec![(true, [-5, 0, 100], maxlen)],
+        engine::Tier::Quick => vec![(true, [-5, 0, 100], maxlen), (false, [i32::MIN, 0, i32::MAX], 2)],
         engine::Tier::Thorough => vec![(true, [-5, 0, 100], maxlen), (false, [i32::MIN, 0, i32::MAX], 3)],
     };
     let mut total = 0u64;
@@ -261,6 +260,26 @@ fn wellformed(check: &Check, case: &PatchCase, origin: &str) -> CaseResult {
         }
     }
     let interesting = b.built.ctrl.len() >= 2 || b.built.neg_seeks > 0;
+    if ok && origin == "wf-grid" {
+        for (on, key) in [
+            (!case.is_bsd0(), "COPY"),
+            (case.is_bsd0() && b.built.ctrl.len() >= 2, "BSD0 with ≥2 control triples"),
+            (case.is_bsd0() && b.built.neg_seeks > 0, "BSD0 with a negative seek"),
+            (case.is_bsd0() && b.built.overruns > 0, "BSD0 copying past the end of the base"),
+            (case.is_bsd0() && bp::rle_has_interior_zero_run(&b.ptch.payload), "BSD0 whose RLE stream has a zero-run token before a literal token"),
+            (case.is_bsd0() && bp::rle_longest_literal(&b.ptch.payload) == 128, "BSD0 whose RLE stream has a 128-byte literal token"),
+            (case.is_bsd0() && case.rle().max_lit == 1, "BSD0 packed with 1-byte tokens"),
+            (case.is_bsd0() && case.rle().omit_trailing_zeros, "BSD0 with trailing zeros left to the decoder"),
+            (case.is_bsd0() && case.incl_header, "BSD0 with patch-data size counting the header"),
+            (case.is_bsd0() && !case.incl_header, "BSD0 with patch-data size of the payload only"),
+            (b.base.is_empty(), "empty base"),
+            (b.new.is_empty(), "empty result"),
+        ] {
+            if on {
+                check.bump(&format!("essential_accepted:{key}"), 1);
+            }
+        }
+    }
     check.count(&format!("{origin}:{}:{}", pcase::shape(case, &b), if ok { "ok" } else { "err" }), ok && interesting);
     check.bump(&format!("wellformed_{kind}_{}", if ok { "accepted" } else { "rejected" }), 1);
     if b.built.neg_seeks_interior > 0 {
@@ -364,7 +383,6 @@ fn make_batch(check: &Check, case: &PatchCase, payload_samples: usize, seed: u64
     let b = case.build();
     let mut alts = pcase::plan(case, &b, payload_samples, seed);
     if exclude {
-        let before = alts.len();
         alts.retain(|alt| {
             let risky_kind = match alt {
                 Alt::Byte { off, .. } => (*off as usize) < bp::off::MD5_SIG,
@@ -383,7 +401,6 @@ fn make_batch(check: &Check, case: &PatchCase, payload_samples: usize, seed: u64
                 None => true,
             }
         });
-        let _ = before;
     }
     Batch { case: case.clone(), alts, nontrivial: b.built.ctrl.len() >= 2 || b.built.neg_seeks > 0 }
 }
@@ -573,21 +590,20 @@ fn main() {
         |c| json!({"kind": "chain", "level": 1, "case": c}),
         |c| {
             let fails = chain_case_result(&check, c, 1, "rnd");
-            // report every known/repeated one, return the first new one for shrinking
-            let mut first_new = None;
+            // count every known one; hand the first unknown one to the driver (a signature that is
+            // new in this run is preferred over one that was already reported)
+            let mut unknown: Vec<Fail> = vec![];
             for f in fails {
                 if check.is_known(&f.signature) {
                     if !pt::suppressed() {
                         check.known_hit(&f.signature, &f.message);
                     }
-                } else if first_new.is_none() && !check.already_reported(&f.signature) {
-                    first_new = Some(f);
+                } else {
+                    unknown.push(f);
                 }
             }
-            match first_new {
-                Some(f) => Err(f),
-                None => Ok(()),
-            }
+            let pick = unknown.iter().position(|f| !check.already_reported(&f.signature)).unwrap_or(0);
+            if unknown.is_empty() { Ok(()) } else { Err(unknown.swap_remove(pick)) }
         },
     );
 
@@ -613,6 +629,26 @@ fn main() {
     }
     if check.classes_with_prefix("wf-grid:BSD0") == 0 || check.classes_with_prefix("wf-grid:COPY") == 0 {
         check.inconclusive("patch grid is empty");
+    }
+    // acceptance classes the grid reaches by construction: if the applier accepts none of a class,
+    // the differential is silent about it (an Err is always allowed) and the run is not a pass
+    for key in [
+        "COPY",
+        "BSD0 with ≥2 control triples",
+        "BSD0 with a negative seek",
+        "BSD0 copying past the end of the base",
+        "BSD0 whose RLE stream has a zero-run token before a literal token",
+        "BSD0 whose RLE stream has a 128-byte literal token",
+        "BSD0 packed with 1-byte tokens",
+        "BSD0 with trailing zeros left to the decoder",
+        "BSD0 with patch-data size counting the header",
+        "BSD0 with patch-data size of the payload only",
+        "empty base",
+        "empty result",
+    ] {
+        if check.counter(&format!("essential_accepted:{key}")) == 0 {
+            check.inconclusive(&format!("no grid patch of the class '{key}' was accepted: vacuous for that class"));
+        }
     }
 
     // ---- part 2b: altered patches
@@ -657,6 +693,3 @@ fn main() {
 
     check.finish();
 }
-
-#[allow(dead_code)]
-fn _unused(_: ArchiveSpec, _: Kind) {}
